@@ -113,7 +113,7 @@ def run(v) -> None:
     depth = 3 if quick else 4
     hists = [list(h) for k in range(1, depth + 1) for h in itertools.product(ops, repeat=k)]
     ops4 = [("dm", t) for t in range(4)] + [("period", t) for t in range(5)]
-    for _ in range(60 if quick else 600):
+    for _ in range(60 if quick else 4000):
         hists.append([rng.choice(ops4) for _ in range(rng.randrange(4, 13))])
     shapes = [(3, 4, 16), (2, 2, 8), (3, 1, 8)] if quick else [(3, 4, 16), (2, 2, 8), (4, 8, 32), (1, 4, 16), (5, 1, 16)]
     specs = [{"id": i, "shapes": shapes, "hists": hists[i::14]} for i in range(14)]
